@@ -9,6 +9,8 @@ pub struct Cb {
     pub out: Vec<Vec<u8>>,
     pub now_us: u64,
     pub rng: u64,
+    // number of upcoming send() calls that report an error (the datagram is then not transmitted)
+    pub fail: u32,
 }
 impl Callback for Cb {
     type Error = ();
@@ -23,6 +25,12 @@ impl Callback for Cb {
     fn send(&mut self, data: &[u8]) -> Result<(), ()> {
         // C04: every datagram handed to the network fits the protocol's maximum
         assert!(data.len() <= 1400, "datagram larger than MAX_PACKETSIZE");
+        // C04: ... and is read back by the library's own reader without error or warning, with the announced chunk count
+        assert!(super::wire_clean(data), "datagram handed to send() is not read back cleanly by the library's own reader");
+        if self.fail > 0 {
+            self.fail -= 1;
+            return Err(());
+        }
         self.out.push(data.to_vec());
         Ok(())
     }
@@ -47,6 +55,7 @@ pub enum Op {
     Advance { ms: u64 },
     Garbage { to: usize, a: u8, b: u8, c: u8, len: usize },
     Disconnect { side: usize, reason_len: usize },
+    FailSends { side: usize, n: u32 },
 }
 
 pub fn draw_ops(max: usize) -> Vec<Op> {
@@ -61,7 +70,8 @@ pub fn draw_ops(max: usize) -> Vec<Op> {
         // fill 0: constant 'Z'; 1: 'w' (a 15-bit Huffman code: large payloads overflow the compressor's buffer);
         // 2: pseudo-random bytes (incompressible)
         let fill = draw::usize_le(2) as u8;
-        let op = match draw::usize_le(16) {
+        let op = match draw::usize_le(17) {
+            17 => Op::FailSends { side, n: 1 + draw::usize_le(2) as u32 },
             0 | 1 | 2 => Op::Send { side, vital: true, fill, len: [3, 3, 4, 10, 40, 300, 694, 694, 1023, 1024, 1090, 1388, 1390][draw::usize_le(12)] },
             3 => Op::Send { side, vital: false, fill, len: [3, 5, 60, 1000][draw::usize_le(3)] },
             4 | 5 => Op::Flush { side },
@@ -108,7 +118,7 @@ pub fn simulate(ops: &[Op], settle: bool) {
     if dbg { println!("OPS {:?} settle={}", ops, settle); }
     let mk = |seed: u64| End {
         conn: Connection::new(),
-        cb: Cb { out: Vec::new(), now_us: 1_000_000, rng: seed },
+        cb: Cb { out: Vec::new(), now_us: 1_000_000, rng: seed, fail: 0 },
         sent_vital: Vec::new(),
         sent_nonvital: Vec::new(),
         recv_vital: Vec::new(),
@@ -132,7 +142,7 @@ pub fn simulate(ops: &[Op], settle: bool) {
         let evs: Vec<Ev> = {
             let me = &mut e[to];
             let (pkt, res) = me.conn.feed(&mut me.cb, &mut sink, data, &mut buf[..]);
-            res.unwrap();
+            let _ = res; // Err only for a failing send callback
             pkt.map(|c| match c {
                 ReceiveChunk::Connected(d, v) => Ev::Chunk(d.to_vec(), v),
                 ReceiveChunk::Ready => Ev::Ready,
@@ -189,7 +199,7 @@ pub fn simulate(ops: &[Op], settle: bool) {
             assert!(!alive || due.is_some(), "live connection without a tick deadline");
             if let Some(t) = due {
                 if t.as_usecs_since_epoch() <= e[i].cb.now_us {
-                    e[i].conn.tick(&mut e[i].cb).unwrap();
+                    let _ = e[i].conn.tick(&mut e[i].cb);
                     let mut out = std::mem::take(&mut e[i].cb.out);
                     wire[1 - i].append(&mut out);
                 }
@@ -222,7 +232,15 @@ pub fn simulate(ops: &[Op], settle: bool) {
                         }
                     }
                     Err(Error::TooLongData) => {}
-                    Err(Error::Callback(())) => unreachable!(),
+                    // a failing send callback during the implicit flush: the chunk itself was queued (C04: the connection
+                    // stays usable), so it counts as submitted
+                    Err(Error::Callback(())) => {
+                        if vital {
+                            me.sent_vital.push(d)
+                        } else {
+                            me.sent_nonvital.push(d)
+                        }
+                    }
                 }
                 let mut out = std::mem::take(&mut me.cb.out);
                 wire[1 - side].append(&mut out);
@@ -230,10 +248,13 @@ pub fn simulate(ops: &[Op], settle: bool) {
             Op::Flush { side } => {
                 if online(&e[side].conn) {
                     let me = &mut e[side];
-                    me.conn.flush(&mut me.cb).unwrap();
+                    let _ = me.conn.flush(&mut me.cb);
                     let mut out = std::mem::take(&mut me.cb.out);
                     wire[1 - side].append(&mut out);
                 }
+            }
+            Op::FailSends { side, n } => {
+                e[side].cb.fail = n;
             }
             Op::Deliver { to, pick } => {
                 if !wire[to].is_empty() {
@@ -266,7 +287,7 @@ pub fn simulate(ops: &[Op], settle: bool) {
                 if alive && e[side].reason.is_none() {
                     let reason: Vec<u8> = (0..reason_len).map(|i| b'a' + (i % 26) as u8).collect();
                     let me = &mut e[side];
-                    me.conn.disconnect(&mut me.cb, &reason).unwrap();
+                    let _ = me.conn.disconnect(&mut me.cb, &reason);
                     me.reason = Some(reason);
                     let mut out = std::mem::take(&mut me.cb.out);
                     wire[1 - side].append(&mut out);
@@ -294,6 +315,8 @@ pub fn simulate(ops: &[Op], settle: bool) {
         return;
     }
     let mut hello_sent = false;
+    e[0].cb.fail = 0;
+    e[1].cb.fail = 0;
     for _round in 0..40 {
         // the application on the connecting side says something once it is online (in 0.7 the accepting side only
         // leaves Pending when the first chunk packet arrives; keep-alives do not count)
